@@ -772,3 +772,91 @@ def parse_compare_output(text):
             rows.append({"q": int(f[1]), "r": int(f[2]), "type": f[3], "ident": float(f[4]), "cov1": float(f[5]), "cov2": float(f[6]),
                          "orient": f[7], "diff1": pairs(f[8]), "diff2": pairs(f[9]), "al1": pairs(f[10]), "al2": pairs(f[11])})
     return cnt, rows
+
+
+def coordinator_reuse(sc: Scenario, mode, ids_first, ids_second):
+    """ONE Program / coordinator serving two query sets one after the other (a long-lived service, or a caller that aligns
+    a second file with the objects it already has): the result for the second set must be what a fresh Program returns
+    for it.  In-process, ordered serial map.  Returns (rows from the reused coordinator, rows from a fresh one) in a
+    canonical form, or (None, error class)."""
+    import src.workflow_coordinator as wc
+    from src.program import Program
+
+    def canon(rows):
+        return sorted((int(r.queryId), int(r.referenceId), bool(r.reverseStrand), round(float(r.confidence), 2), bool(r.alignedRest),
+                       tuple((int(p.reference.siteId), int(p.query.siteId)) for p in r.alignedPairs)) for r in rows)
+    pool_names = [n for n in ("p_imap", "p_uimap", "p_map", "p_umap") if hasattr(wc, n)]
+    old_maps = {n: getattr(wc, n) for n in pool_names}
+    for n in pool_names:
+        setattr(wc, n, serial_imap)
+    try:
+        with Workdir() as d:
+            rpath, qpath = os.path.join(d, "r.cmap"), os.path.join(d, "q.cmap")
+            cmapio.write_cmap(rpath, sc.refs, None)
+            cmapio.write_cmap(qpath, sc.queries, None)
+
+            def program(tag):
+                args = Args.parse(cli_args(sc, rpath, qpath, os.path.join(d, f"{tag}.xmap"), mode if mode != "single" else "best", 1))
+                if mode == "single":
+                    args.outputMode = "single"
+                return Program(args, []), args
+            try:
+                p1, a1 = program("reused")
+                refs = p1.referenceMaps
+                A = [q for q in p1.queryMaps if q.moleculeId in ids_first]
+                B = [q for q in p1.queryMaps if q.moleculeId in ids_second]
+                p1.workflowCoordinator.execute(refs, A)
+                reused = canon(p1.workflowCoordinator.execute(refs, B))
+                p2, a2 = program("fresh")
+                fresh = canon(p2.workflowCoordinator.execute(p2.referenceMaps, [q for q in p2.queryMaps if q.moleculeId in ids_second]))
+                for a in (a1, a2):
+                    a.outputFile.close()
+                return reused, fresh
+            except Exception as e:  # noqa
+                return None, type(e).__name__
+    finally:
+        for n, f in old_maps.items():
+            setattr(wc, n, f)
+
+
+def coordinator_reuse_two_files(first: Scenario, second: Scenario, mode):
+    """like `coordinator_reuse`, with the two query sets coming from two query files that may re-use molecule ids"""
+    import src.workflow_coordinator as wc
+    from src.program import Program
+    from src.parsers.cmap_reader import CmapReader
+
+    def canon(rows):
+        return sorted((int(r.queryId), int(r.referenceId), bool(r.reverseStrand), round(float(r.confidence), 2), bool(r.alignedRest),
+                       tuple((int(p.reference.siteId), int(p.query.siteId)) for p in r.alignedPairs)) for r in rows)
+    pool_names = [n for n in ("p_imap", "p_uimap", "p_map", "p_umap") if hasattr(wc, n)]
+    old_maps = {n: getattr(wc, n) for n in pool_names}
+    for n in pool_names:
+        setattr(wc, n, serial_imap)
+    try:
+        with Workdir() as d:
+            rpath, q1, q2 = os.path.join(d, "r.cmap"), os.path.join(d, "q1.cmap"), os.path.join(d, "q2.cmap")
+            cmapio.write_cmap(rpath, first.refs, None)
+            cmapio.write_cmap(q1, first.queries, None)
+            cmapio.write_cmap(q2, second.queries, None)
+
+            def program(qpath, tag):
+                args = Args.parse(cli_args(first, rpath, qpath, os.path.join(d, f"{tag}.xmap"), mode if mode != "single" else "best", 1))
+                if mode == "single":
+                    args.outputMode = "single"
+                return Program(args, []), args
+            try:
+                p1, a1 = program(q1, "reused")
+                p1.workflowCoordinator.execute(p1.referenceMaps, p1.queryMaps)
+                with open(q2) as f:
+                    second_maps = [m.trim() for m in CmapReader().readQueries(f)]
+                reused = canon(p1.workflowCoordinator.execute(p1.referenceMaps, second_maps))
+                p2, a2 = program(q2, "fresh")
+                fresh = canon(p2.workflowCoordinator.execute(p2.referenceMaps, p2.queryMaps))
+                for a in (a1, a2):
+                    a.outputFile.close()
+                return reused, fresh
+            except Exception as ex:  # noqa
+                return None, type(ex).__name__
+    finally:
+        for n, f in old_maps.items():
+            setattr(wc, n, f)
